@@ -249,8 +249,10 @@ func loop(ctx context.Context, v any, i int, path []string, new *any, action int
 			}
 
 		case nil:
-			// Let's overwrite part of the path
-			return nil, errOverwritePath
+			// The path continues below a key that doesn't exist yet (or
+			// holds null): create the missing map and carry on down the
+			// path so that nothing else in the structure is touched.
+			return loop(ctx, make(map[string]any), i, path, new, action)
 
 		case string, int, float64, bool:
 			return nil, fmt.Errorf("unable to alter data structure using that path because one of the path elements is an end of tree (%T) rather than a map. Instead please have the full path you want to add as part of the amend JSON string in `alter`", v)
